@@ -344,6 +344,13 @@ func (x *Exec) load(st *State, key string, t types.Type, pos token.Pos) SVal {
 		}
 		return v
 	}
+	if st.Named["unknown:"+keyBase(key)] == "true" {
+		// havocked before it was ever read (by a loop or by callbacks of a nested subscription)
+		v := x.symbolic(st, fmt.Sprintf("%s@unknown.%d", key, len(st.Events)), t)
+		v.Src = key
+		st.Heap[key] = v
+		return v
+	}
 	if st.Zero[keyBase(key)] {
 		v := x.zeroValue(t)
 		st.Heap[key] = v
@@ -708,7 +715,15 @@ func (x *Exec) block(st *State, b *ssa.BasicBlock, pred *ssa.BasicBlock, k Cont)
 			fr.Vals[phi] = x.freshLike(st, fmt.Sprintf("%s@loop%d", name, ord), fr.Vals[phi], phi.Type())
 		}
 		for key := range written {
-			old := st.Heap[key]
+			old, ok := st.Heap[key]
+			if !ok {
+				// not read or written before the loop: a cell declared in the loop body (nothing to forget), or a
+				// zero-initialised cell declared before it, whose value is unknown from now on
+				if st.Zero[keyBase(key)] {
+					st.Named["unknown:"+keyBase(key)] = "true"
+				}
+				continue
+			}
 			st.Heap[key] = x.freshLike(st, key+"@loop", old, old.GoT)
 		}
 		x.exposeLoopVars(st, b)
